@@ -29,6 +29,37 @@ def gen(rng, tier):
             yield Case("addrenc", [fmt, hx(pub)] + kwfields(kw), "enc-" + fmt)
             addr = enc.EncodeKey(pub, **conv_kw(fmt, kw))
             yield Case("addrdec", [fmt, tx(addr)] + kwfields(kw), "dec-" + fmt)
+        # output-dependent cases: pre-scan many keys on the implementation and send to the model those whose address has an unusual
+        # length, whose decoded payload starts with a zero byte, or whose own decoder refuses / changes them (fixed-width slips)
+        scan = 250 if tier == "quick" else 4000
+        lens, picked = {}, []
+        kw0 = dict(params[0])
+        for j in range(scan):
+            pub = pub_forms(curve, rand_priv(rng, curve))[0]
+            kw = dict(kw0)
+            if fmt in ("xmr", "xmrint"):
+                kw["pub_vkey"] = hx(pub_forms(curve, rand_priv(rng, curve))[0])
+                if fmt == "xmrint":
+                    kw["payment_id"] = hx(bytes(rng.randrange(256) for _ in range(8)))
+            ckw = conv_kw(fmt, kw)
+            try:
+                addr = enc.EncodeKey(pub, **ckw)
+            except Exception:  # noqa
+                picked.append((0, pub, kw)); continue
+            lens.setdefault(len(addr), []).append((pub, kw))
+            try:
+                pay = dec.DecodeAddr(addr, **{k: v for k, v in ckw.items() if k not in ("pub_key_mode", "trim_zeroes", "pub_vkey", "pub_skey", "compressed")})
+            except Exception:  # noqa
+                picked.append((0, pub, kw)); continue
+            if isinstance(pay, bytes) and pay[:1] == b"\x00":
+                picked.append((1, pub, kw))
+        modal = max(lens, key=lambda k: len(lens[k])) if lens else None
+        for ln, lst in lens.items():
+            if ln != modal:
+                picked += [(0, pub, kw) for pub, kw in lst[:2]]
+        picked.sort(key=lambda t: t[0])
+        for _, pub, kw in picked[:4 if tier == "quick" else 40]:
+            yield Case("addrenc", [fmt, hx(pub)] + kwfields(kw), "enc-outputdep")
         # byte strings that are not valid keys
         for bad in (b"", b"\x02" + bytes(32), b"\x05" + bytes(32), bytes(33), b"\x02" + b"\xff" * 32, bytes(31), bytes(65), b"\x04" + bytes(64),
                     bytes(rng.randrange(256) for _ in range(33)), bytes(rng.randrange(256) for _ in range(32))):
